@@ -89,7 +89,7 @@ type Host struct {
 
 func NewInterpreter(program *Program, registers Registers, memory *Memory, gas Gas) *Interpreter {
 	return &Interpreter{
-		Program:   program,
+		Program:   program.executable(),
 		Registers: registers,
 		Memory:    memory,
 		Gas:       gas,
@@ -106,7 +106,7 @@ type VMState struct {
 func NewHost(program *Program, registers Registers, memory *Memory, gas Gas, addition HostCallArgs, hostCalls Omegas) *Host {
 	return &Host{
 		Interpreter: Interpreter{
-			Program:   program,
+			Program:   program.executable(),
 			Registers: registers,
 			Memory:    memory,
 			Gas:       gas,
